@@ -709,18 +709,28 @@ def large_frame_cases(rng, tier, dist, extra=""):
     """frames far larger than any internal buffer a writer might use (64 KiB, 1 MiB), of lengths that are not
     multiples of those sizes; followed by a small frame, so a lost tail shifts what comes after"""
     out = []
-    sizes = [65536 + 7, (1 << 20) + 123] if tier == "quick" else [4096 + 1, 65536 + 7, (1 << 20) + 123, (1 << 20), 3 * (1 << 19) + 5, (1 << 21) + 1]
+    sizes = [65536 + 7, 65536 + 7, 70000, (1 << 20) + 123] if tier == "quick" else [4096 + 1, 65536 + 7, 65536, 70000, 70000, (1 << 20) + 123, (1 << 20), 3 * (1 << 19) + 5, (1 << 21) + 1] * 3
     for n in sizes:
         codec = rng.choice(["vp9", "av1"])
         k = key_frame(rng, codec)
         big = k + bytes(rng.randrange(256) for _ in range(64)) * ((n - len(k)) // 64 + 1)
         big = big[:n]
         audio = rng.choice(["none", "opus"])
-        ops = ["wv %s %s 1" % (f64bits(0.0), hx(big))]
-        if audio != "none":
-            ops.append("wa %s %s" % (f64bits(0.0), hx(audio_frame(rng, audio))))
-        ops.append("wv %s %s 0" % (f64bits(1 / 30), hx(delta_frame(rng, codec))))
+        # the large frame first, in the middle or last: small samples before it must stay before it in the file
+        pos = rng.randrange(3)
+        frames = [key_frame(rng, codec), delta_frame(rng, codec), delta_frame(rng, codec)]
+        if pos == 0:
+            frames[0] = big
+        else:
+            d = frames[pos]
+            frames[pos] = (d + bytes(rng.randrange(256) for _ in range(64)) * ((n - len(d)) // 64 + 1))[:n]
+        ops = []
+        for i, fr in enumerate(frames):
+            ops.append("wv %s %s %d" % (f64bits(i / 30), hx(fr), 1 if i == 0 else 0))
+            if audio != "none" and i < 2:
+                ops.append("wa %s %s" % (f64bits(i / 30), hx(audio_frame(rng, audio))))
         ops.append("fins")
+        dist["large_frame_position=%d" % pos] += 1
         out.append(pcase(cfg_str(codec=codec, audio=audio, fast=rng.randrange(2), extra=extra), ops))
         dist["large_frame=%d" % n] += 1
     return out
@@ -1004,11 +1014,16 @@ def gen_C05(rng, tier, dist):
         if rng.random() < 0.5:
             ops = contract_history(rng, dist, codec, audio, with_enc=rng.random() < 0.5)
             ops = [o for o in ops if o not in ("fin", "fins", "finish", "finishs", "flush")] + ["fins"]
-            out.append(pcase(cfg_str(codec=codec, audio=audio, fast=rng.randrange(2)) + " twin=filter", ops))
+            # `filter1` removes only the first refused call: a refusal that drags a later call down with it must show
+            tw = rng.choice([" twin=filter", " twin=filter1"])
+            dist["c05" + tw.strip()] += 1
+            out.append(pcase(cfg_str(codec=codec, audio=audio, fast=rng.randrange(2)) + tw, ops))
         else:
             cfg, ops, info = gen_history(rng, dist, codec=codec, audio=audio, rejects=0.35)
-            out.append(pcase(cfg + " twin=filter", ops))
-    out += smallscope_histories(tier, dist, extra="twin=filter")
+            tw = rng.choice([" twin=filter", " twin=filter1"])
+            dist["c05" + tw.strip()] += 1
+            out.append(pcase(cfg + tw, ops))
+    out += smallscope_histories(tier, dist, extra="twin=filter") + smallscope_histories(tier, dist, extra="twin=filter1")
     # fragmented muxer: refusal-rich sequences (judged by the C10 + C11 + C02 oracles: outputs as if the refused calls had never been made)
     for _ in range(400 if tier == "quick" else 30000):
         out.append(fcase(frag_cfg(rng, dist), frag_ops(rng, dist, maxlen=30, reject_rate=0.3)))
